@@ -382,7 +382,8 @@ def run_file(datadir, fname, cases):
             repart.append(rec)
     if native_fh is not None:
         native_fh.close()
-    return {"file": fname, "n": n, "mismatches": mism, "evaluations": n_eval, "hashes": hashes, "repart": repart,
+    return {"file": fname, "n": n, "full_digests": {k: [tstr(v)[:400], digest(v)] for k, v in full.items()},
+            "mismatches": mism, "evaluations": n_eval, "hashes": hashes, "repart": repart,
             "chunk_lens": chunk_lens, "pybes3": pybes3.__file__, "native_index": native_index}
 
 
@@ -398,6 +399,17 @@ def run_concat(datadir, cases):
             cache[(f, path)] = uproot.open(os.path.join(datadir, f))["Event"][path].array()
         return cache[(f, path)]
 
+    # first of all every file's branches once, file after file in the given order (a file with an all-empty collection may come before
+    # one that has objects in it, or after): what a file reads as must not depend on the files read before it in the same interpreter
+    for f, keys in cases.get("prepass") or []:
+        for path in keys:
+            n_eval += 1
+            hashes.append(hashlib.sha1(json.dumps(["prepass", f, path]).encode()).hexdigest()[:16])
+            try:
+                rd(f, path)
+            except Exception as ex:  # noqa: BLE001
+                mism.append({"kind": "read-after-other-files-exception", "file": f, "branch": path, "detail": [], "type_equal": False, "values_equal": False,
+                             "got_type": type(ex).__name__ + ": " + str(ex)[:200]})
     for c in cases["lists"]:
         files, path = c["files"], c["branch"]
         n_eval += 1
@@ -478,7 +490,9 @@ def run_concat(datadir, cases):
         os.chdir(cwd0)
         if scratch:
             shutil.rmtree(scratch, ignore_errors=True)
-    return {"mismatches": mism, "evaluations": n_eval, "hashes": hashes}
+    # the per-file reference reads of THIS process (made after other files were read in it), to be compared with each file's own process
+    refs = {f + "|" + path: [tstr(v)[:400], digest(v)] for (f, path), v in cache.items()}
+    return {"mismatches": mism, "evaluations": n_eval, "hashes": hashes, "reference_reads": refs}
 
 
 def main():
